@@ -686,6 +686,10 @@ func (e *Engine) runScript(s *Submission, script []string, r res.Resource, kind 
 				panic(&res.Error{Code: "test.custom", Message: "Custom " + strconv.Itoa(s.Op.ID)})
 			case "err":
 				panic(errors.New("plain error " + strconv.Itoa(s.Op.ID)))
+			case "wraperr":
+				// an ordinary error that wraps one of the library's errors
+				// is still an ordinary error
+				panic(fmt.Errorf("wrapped %d: %w", s.Op.ID, res.ErrNotFound))
 			case "str":
 				panic("string panic " + strconv.Itoa(s.Op.ID))
 			case "int":
